@@ -41,6 +41,8 @@ func c18Same(a, b reflect.Value) bool {
 	return len(vocab.ContentDiff(a.Interface(), b.Interface())) == 0
 }
 
+var c18LastErr string // the error of the most recent refusal (detail text only)
+
 // c18Check runs CopyItemProperties(to, from) and evaluates the merge rule.  mustRefuse != "" names the reason a refusal is required.
 func c18Check(to, from ap.Item, mustRefuse string, weak bool) (ds []keyed, outcome string) {
 	toSnap, fromSnap := vocab.CloneItem(to), vocab.CloneItem(from)
@@ -71,6 +73,7 @@ func c18Check(to, from ap.Item, mustRefuse string, weak bool) (ds []keyed, outco
 		return ds, "refused"
 	}
 	if err != nil {
+		c18LastErr = err.Error()
 		return ds, "error"
 	}
 	if weak {
@@ -150,7 +153,7 @@ func TestC18(t *testing.T) {
 	r := ev.Open(t, "C18")
 	defer r.Close(t)
 	r.Rule("cells: for Object, Actor and the four collection types, every field x {set only in to, only in from, in both with different values} with the same id and type on both sides; " +
-		"refusals: untyped nil on either side, non-equivalent ids, differing types, unsupported types; random: independent random property subsets on both sides (ids presented as equivalent variants), " +
+		"(a refusal of two values of one supported type with one id is reported: the refusal conditions are listed in the statement); refusals: untyped nil on either side, non-equivalent ids, differing types, unsupported types; random: independent random property subsets on both sides (ids presented as equivalent variants), " +
 		"plus pairs that need not be refused but must not panic or touch `from` (typed nils, empty-typed `to` with a foreign `from`, Go-type mismatches). " +
 		"Oracle: field-wise merge rule from the statement (after in {before, from}; set-in-to & unset-in-from is kept; listed merged properties set in from are taken), to.id/type == from's, " +
 		"`from` bit-identical to its snapshot, refusals leave `to` bit-identical. non-trivial = at least one property set only in `to` and one only in `from`; distinct by the dumps of both sides")
@@ -198,7 +201,12 @@ func TestC18(t *testing.T) {
 							fv.Field(f.Index).Set(ov)
 						}
 						canon := cell + " " + vocab.Dump(to) + " <- " + vocab.Dump(from)
-						ds, _ := c18Check(to, from, "", false)
+						ds, outcome := c18Check(to, from, "", false)
+						if outcome == "error" {
+							// the statement lists when a merge is refused; two values of one supported type with the same id are none of these
+							// cases, and a merge that refuses them makes every clause about successful merges vacuous
+							ds = append(ds, keyed{"copy unexpected-refusal " + gt, "CopyItemProperties refused two " + gt + " values with the same id and type: " + c18LastErr})
+						}
 						r.Case(canon, true, "cells "+pattern, "cells type="+gt)
 						if done%173 == 0 {
 							r.Sample(canon, map[string]interface{}{"layer": "cells", "cell": cell, "to": vocab.Dump(to), "from": vocab.Dump(from)})
